@@ -304,6 +304,87 @@ prog_xchg(void *arg)
 			break;
 		}
 	}
+	// "later calls behave": whatever failed above (possibly inside a call that
+	// still succeeded, leaving a fallback in place), a burst of numbered
+	// messages sent before the receiver looks must come out in order, each at
+	// most once and intact; the lossless pairs must deliver all of them
+	if (ok && x->kind != X_REQREP && x->kind != X_SURVEY) {
+		nng_socket from = (x->kind == X_PIPELINE) ? b : a;
+		nng_socket to   = (x->kind == X_PIPELINE) ? a : b;
+		// (SP/UDP drops the oldest datagram when its receive ring is full)
+		int        lossless = x->tran != T_UDP &&
+		    (x->kind == X_PIPELINE || x->kind == X_PAIR0 || x->kind == X_PAIR1);
+		int  save = va_choice, nsent = 0, last = 0, ngot = 0;
+		char tag[8];
+		va_choice = 0;
+		nng_socket_set_ms(to, NNG_OPT_RECVTIMEO, 100);
+		for (int i = 1; i <= 6; i++) {
+			nng_msg *m;
+			snprintf(tag, sizeof(tag), "n%d", i);
+			if (nng_msg_alloc(&m, 0) != 0 || nng_msg_append(m, tag, 2) != 0)
+				vs_fail("harness:burst", "message allocation");
+			if (nng_sendmsg(from, m, 0) != 0) {
+				nng_msg_free(m);
+				break;
+			}
+			nsent = i;
+		}
+		vs_settle();
+		for (;;) {
+			nng_msg *m = NULL;
+			if (nng_recvmsg(to, &m, 0) != 0)
+				break;
+			char  *bd = nng_msg_body(m);
+			size_t bl = nng_msg_len(m);
+			if (bl == 4 && (memcmp(bd, "ping", 4) == 0 || memcmp(bd, "pong", 4) == 0)) {
+				nng_msg_free(m); // a straggler of the exchange above
+				continue;
+			}
+			int k = (bl == 2 && bd[0] == 'n') ? bd[1] - '0' : -1;
+			if (k < 1 || k > nsent)
+				vs_fail("C20:corrupt-after-failure",
+				    "burst of %d after the exchange: received %zu bytes '%.8s'",
+				    nsent, bl, bl ? bd : "");
+			if (k <= last)
+				vs_fail("C20:misbehaves-after-failure",
+				    "burst n1..n%d: n%d delivered after n%d (duplicated or "
+				    "reordered), injected=%ld site %s",
+				    nsent, k, last, va_failed, va_failed_site);
+			last = k;
+			ngot++;
+			nng_msg_free(m);
+			if (ngot > 8)
+				break;
+		}
+		if (lossless && ngot != nsent && !(va_failed && x->tran != T_INPROC))
+			vs_fail("C20:misbehaves-after-failure",
+			    "burst: %d of %d messages arrived on a lossless pair, "
+			    "injected=%ld site %s",
+			    ngot, nsent, va_failed, va_failed_site);
+		// and the pair is not wedged: within 5 virtual seconds (reconnects
+		// included) a fresh message gets through
+		int through = 0;
+		for (int t = 0; t < 50 && !through; t++) {
+			nng_msg *m;
+			if (nng_msg_alloc(&m, 0) != 0 || nng_msg_append(m, "ctl", 3) != 0)
+				vs_fail("harness:burst", "message allocation");
+			if (nng_sendmsg(from, m, 0) != 0)
+				nng_msg_free(m);
+			for (;;) {
+				if (nng_recvmsg(to, &m, 0) != 0)
+					break;
+				if (nng_msg_len(m) == 3 && memcmp(nng_msg_body(m), "ctl", 3) == 0)
+					through = 1;
+				nng_msg_free(m);
+			}
+		}
+		if (!through)
+			vs_fail("C20:wedged-after-failure",
+			    "no message gets from one socket to the other any more (50 "
+			    "attempts over 5 s), injected=%ld site %s",
+			    va_failed, va_failed_site);
+		va_choice = save;
+	}
 	vs_log("%s/%s allocs=%ld", XN[x->kind], TN[x->tran], va_count());
 	LOCAL(nng_socket_close(a));
 	LOCAL(nng_socket_close(b));
